@@ -99,6 +99,7 @@ fn do_session(s: &Value) -> Vec<Value> {
     let mut ev = Vec::new();
     let cap = s["cap"].as_i64().unwrap_or(-1);
     let mut written: Vec<u8> = vec![];
+    let mut accepted: Vec<Value> = vec![];
     if cap >= 0 {
         let cap = cap as usize;
         ev.push(json!({"e": "pk_new", "cap": cap}));
@@ -130,6 +131,12 @@ fn do_session(s: &Value) -> Vec<Value> {
                 p.written().to_vec()
             })
         });
+        for e in &wev {
+            if e["res"] == "ok" {
+                let n = e["b"].as_array().map(|a| a.len()).unwrap_or(0);
+                accepted.push(if e["k"] == "raw" { json!({"o": "raw", "n": n}) } else { json!({"o": e["k"], "n": 0}) });
+            }
+        }
         ev.append(&mut wev);
         match res {
             Ok(w) => {
@@ -158,7 +165,11 @@ fn do_session(s: &Value) -> Vec<Value> {
     ev.push(json!({"e": "up_new", "demo": demo, "data": jbytes(&data), "src": src, "pad": pad}));
     let mut u = if demo { Unpacker::new_from_demo(&data) } else { Unpacker::new(&data) };
     let base = data.as_ptr() as usize;
-    for r in s["reads"].as_array().cloned().unwrap_or_default() {
+    // "mirror": read back what was ACCEPTED (the caller carried on after refused writes), then the
+    // reads given explicitly
+    let mut reads: Vec<Value> = if s["mirror"] == true { accepted } else { vec![] };
+    reads.extend(s["reads"].as_array().cloned().unwrap_or_default());
+    for r in reads {
         let o = r["o"].as_str().unwrap_or("").to_string();
         let n = r["n"].as_u64().unwrap_or(0) as usize;
         let mut warns: Vec<Warning> = vec![];
@@ -470,17 +481,32 @@ fn rnd_session(rng: &mut StdRng) -> Value {
         _ => total + 8,
     };
     let demo = rng.gen_range(0..3) == 0;
-    // reads: mostly the matching ones, sometimes a different kind, plus extras and a finish
+    // a caller that carries on: small items behind the others (they may still fit after a refusal)
+    if rng.gen_range(0..3) == 0 {
+        for _ in 0..rng.gen_range(1..4) {
+            writes.push(match rng.gen_range(0..4) {
+                0 => json!({"k": "int", "x": rng.gen_range(-64..64), "b": []}),
+                1 => json!({"k": "raw", "x": 0, "b": [rng.gen::<u8>()]}),
+                2 => json!({"k": "str", "x": 0, "b": []}),
+                _ => json!({"k": "data", "x": 0, "b": []}),
+            });
+        }
+    }
+    // reads: usually exactly what was accepted ("mirror", resolved after the write phase); otherwise one
+    // read per write, some of a different kind; plus extras and a finish
+    let mirror = rng.gen_range(0..4) != 0;
     let mut reads = Vec::new();
-    for w in &writes {
-        let k = w["k"].as_str().unwrap();
-        if rng.gen_range(0..12) == 0 {
-            let o = ["int", "str", "data", "raw", "rest"][rng.gen_range(0..5)];
-            reads.push(json!({"o": o, "n": rng.gen_range(0..4)}));
-        } else if k == "raw" {
-            reads.push(json!({"o": "raw", "n": w["b"].as_array().unwrap().len()}));
-        } else {
-            reads.push(json!({"o": k, "n": 0}));
+    if !mirror {
+        for w in &writes {
+            let k = w["k"].as_str().unwrap();
+            if rng.gen_range(0..12) == 0 {
+                let o = ["int", "str", "data", "raw", "rest"][rng.gen_range(0..5)];
+                reads.push(json!({"o": o, "n": rng.gen_range(0..4)}));
+            } else if k == "raw" {
+                reads.push(json!({"o": "raw", "n": w["b"].as_array().unwrap().len()}));
+            } else {
+                reads.push(json!({"o": k, "n": 0}));
+            }
         }
     }
     for _ in 0..rng.gen_range(0..3) {
@@ -492,7 +518,7 @@ fn rnd_session(rng: &mut StdRng) -> Value {
         let o = ["int", "str", "data", "rest", "finish"][rng.gen_range(0..5)];
         reads.push(json!({"o": o, "n": 0}));
     }
-    let mut s = json!({"cap": cap, "writes": writes, "demo": demo, "reads": reads});
+    let mut s = json!({"cap": cap, "writes": writes, "demo": demo, "reads": reads, "mirror": mirror});
     match rng.gen_range(0..8) {
         0 => {
             // arbitrary input for the unpacker
